@@ -413,6 +413,8 @@ struct Obs {
     texts: Vec<String>,
     data: String,
     errors: Vec<String>,
+    /// subscription stream ended without a single response
+    no_event: bool,
 }
 
 fn execute(schema: &S, root: usize, doc: &str, vars: &serde_json::Value) -> Result<Obs, String> {
@@ -421,14 +423,15 @@ fn execute(schema: &S, root: usize, doc: &str, vars: &serde_json::Value) -> Resu
     let resp = agv_engine::catch_quiet(|| {
         if root == 2 {
             let mut st = schema.execute_stream(req);
-            drive(st.next()).flatten()
+            drive(st.next())
         } else {
-            drive(schema.execute(req))
+            drive(schema.execute(req)).map(Some)
         }
     })?;
     let texts = TEXTS.with(|t| std::mem::take(&mut *t.borrow_mut()));
     match resp {
-        Some(r) => Ok(Obs { texts, data: r.data.to_string(), errors: r.errors.iter().map(|e| e.message.clone()).collect() }),
+        Some(Some(r)) => Ok(Obs { texts, data: r.data.to_string(), errors: r.errors.iter().map(|e| e.message.clone()).collect(), no_event: false }),
+        Some(None) => Ok(Obs { texts, data: String::new(), errors: Vec::new(), no_event: true }),
         None => Err("request future parked (no response)".to_string()),
     }
 }
@@ -508,7 +511,13 @@ fn check_case(cx: &Cx, schema: &S, c: &Case, id: usize) {
         return;
     }
     let text = &o.texts[0];
-    if !o.data.contains(&b.sentinel) {
+    // A static schema collects subscription streams from plain root fields only: a subscription whose root
+    // selection is a fragment yields an empty stream (not this property's business). The text is still produced
+    // and judged; only the "secret reached the resolver" cross-check is impossible there.
+    let fragment_at_subscription_root = c.root == 2 && !c.nested && c.ctx != 0;
+    if o.no_event && fragment_at_subscription_root {
+        cx.extra_add("subscription_root_fragment_cases_without_event", 1);
+    } else if !o.data.contains(&b.sentinel) {
         cx.machinery_error(format!("the secret did not reach the secret site: {} vars {} -> data {}", b.doc, b.vars, o.data));
         return;
     }
